@@ -45,10 +45,20 @@ MANIFEST = dict(
          "counts/lanes/key sounds kept), StepMania and BMS by composition with C03's / C05's whole-file writer theorems for every rated chart in "
          "their decidable domains (objects at exactly t/r resp. within 1/192 beat and exact on the grid, tempo at t/r with bpm*r), osu by composition with "
          "C01's whole-file writer theorem (notes and samples within < 1 ms of t/r, tempo at t/r with bpm*r; printers as oracle parameters); the format-level rate functions are proved equal to the stacker model "
-         "under explicit embeddings. Tied to Map.rate/MapSet.rate/OsuMap.rate/SMMapSet.rate by in-Coq correspondence on charts of all five games "
+         "under explicit embeddings. (4) closure of the writer domains under rate (hypothesis on the SOURCE chart, theorems ..._closed): uniform scaling "
+         "changes no position -- for r > 0 TimingMap.snaps of the rated rows at the rated times returns the very same positions, and the re-derived "
+         "script, its millisecond form, time_of, the active tempo, cumulative beats, the grid test and C10's domains commute with the scaling "
+         "(C13_scaling_keeps_positions/_script/_beats); hence StepMania's exact write domain c03_domb is closed for every r > 0 "
+         "(C13_sm_domain_closed, C13_sm_rate_survives_write_closed: no hypothesis on the rated mapset), BMS's write_dom is closed under exactly the "
+         "guard that bpm*r survives ':.3f' (closure refuted without it: C13_bms_write_dom_rate_refuted, r = 3/7 on C05's example; real code: a note "
+         "at 466666.67 ms is read back at 466662.78 ms -- the known finding bpm-3f-rounding seen through rate), osu's structural write_domain is "
+         "closed for every r <> 0 and the full domain only up to the printer oracle on the rated numbers (C13_osu_wdom6_rate_refuted: 1000/3 has no "
+         "six-decimal print). Tied to Map.rate/MapSet.rate/OsuMap.rate/SMMapSet.rate by in-Coq correspondence on charts of all five games "
          "(model output = implementation output, original untouched, file-level fields included).",
-    note="Trusted: Coq kernel+VM, harness; binary64 exact on the exact stream by construction, measured (1e-9) on the rounded stream. Open: closure "
-         "of the osu / StepMania / BMS writer domains under rate (hypothesis on the rated chart). Fixed findings: SM offset unscaled (0398fe5), osu preview marker scaled (09d92a7).",
+    note="Trusted: Coq kernel+VM, harness; binary64 exact on the exact stream by construction, measured (1e-9) on the rounded stream. Closure of the writer domains under "
+         "rate: proved for StepMania (r > 0), for BMS under the ':.3f' guard, for osu's write_domain (the printer clause of the full osu domain "
+         "stays a hypothesis on the rated numbers); the theorems with the hypothesis on the rated chart are kept. BMS charts with tempo rows out of time order are covered "
+         "(write_dom_any closed under the same guard, C13_bms_rate_survives_write_any_order). Not covered: the cap regime of C03 (c03_cap_domb). Fixed findings: SM offset unscaled (0398fe5), osu preview marker scaled (09d92a7).",
     technique="Coq proof (composition of stacker refinement; composition with the formats' writer theorems) + vm_compute correspondence",
     design="4/C13")
 
